@@ -1,65 +1,72 @@
-"""C11 - whatever the compiler accepts loads and defines exactly the program's predicates."""
+"""C11 - whatever the compiler accepts loads and defines exactly the program's predicates.
+
+Every case is a SOURCE TEXT.  Implementation: compile_prolog_from_string(text) -> Python text or an exception.
+Model (evaluated inside Coq): Comp/CompileText.v compile_text = Lang/Front.v front (lexer, parser, visitor) +
+compile_program + the static size limits of Comp/Limits.v + emit_program with the full repr model -> the same
+Python text, or the kind of rejection.  Compared: accepted/rejected (and why), and the text, byte for byte."""
 import ast as pyast
 from lib import progs, ast_io
-from lib.terms import g_str
+from lib import emitcheck as E
 
 ID = 'C11'
-IMPORTS = ['Lang.Ast', 'Comp.RunCompile']
-THEOREMS = []
+IMPORTS = E.IMPORTS + ['Comp.ShowIR']
+THEOREMS = ['C11_compile_body_total', 'C11_compile_program_total', 'C11_compile_text_cases', 'C11_emit_defs_exact', 'C11_head_keys_spec', 'C11_def_name_determines_key', 'C11_function_frame', 'C11_toplevel_defs', 'C11_text_lines', 'C11_front_lexical', 'C11_text_lines_exact', 'C11_emit_lexemes_valid', 'C11_prefixed_variable_not_reserved', 'C11_too_large_reported', 'C11_accepted_within_limits']
 RULE = ('random programs (2-5 predicates + leaf fact predicates + list-recursion templates; heads with repeated, nested and anonymous '
-        'variables; bodies over calls, =, \\=, true, fail, cut, ;, ->, \\+, call/once/findall) printed to Prolog text; plus boundary forms: '
-        'numeral spellings, variable names that are Python keywords/builtins/names of the generated code, bodies that can never succeed, '
-        'long clauses, deep terms. Compared: emitted text equal to the Coq model\'s text (compile_program + emit_program evaluated in Coq). '
+        'variables; bodies over calls, =, \\=, true, fail, cut, ;, ->, \\+, call/once/findall; quoted atoms with quotes, line breaks, '
+        'control and non-ASCII characters) printed to Prolog text; boundary forms: numeral spellings, variable names that are Python '
+        'keywords/builtins/names of the generated code, bodies that can never succeed, clause-head names of every lexical form; sources '
+        'whose size is at CPython\'s limits (19/20/21 nested blocks, 199/200/201 nested brackets, 4300/4301 digits). '
+        'Compared: verdict (text / reject-front / reject-numeral / too-large) and emitted text equal to the Coq model compile_text '
+        '(front end + compiler + limits + emitter with repr, evaluated in Coq on the source text). '
         'Oracle on the implementation alone: the text byte-compiles, is a module of FunctionDefs named exactly <name>_<arity> of the head '
-        'keys in first-occurrence order, every function is a generator function, loading adds exactly those keys, every key is callable '
-        'through query. Non-trivial: the program has a rule with a body goal and >= 2 head keys.')
+        'keys in first-occurrence order with parameters arg1..argN, every function is a generator function, loading adds exactly those '
+        'keys and changes no other, every key is callable through query. Non-trivial: the program is accepted and has a rule with a body '
+        'goal and >= 2 head keys, or it is rejected as too large / for a numeral by both sides.')
 TRUSTED_BASE = []
-CASE_TIMEOUT = 20
-COQ_CHUNK = 25
+CASE_TIMEOUT = 30
+COQ_CHUNK = 20
 
-class Ctx:
-    debug_filename = ''
-    debug_parser = False
-    debug_generator = False
+# ------------------------------------------------------------------ cases
+
+HEAD_NAMES = ['µs', 'ﬁle', 'ª', 'x²', 'Ⅸ', 'été', '中文', 'ｆｕｌｌ', 'K', 'ſ', 'a b', '1a', 'a-b', 'A', '_a', '_', '__', 'a_1', 'a1_', 'Ab_c', '', 'a.b',
+              "it's", 'a\nb', 'def', 'None', 'True', 'x' * 300, 'é', 'e\u0301', 'ǆ', 'ﬀ', '\u00aa', 'ℌ', '𝐚', 'a\u200db', 'A\u0308', 'a\x00',
+              'p:\n  pass\ndef q', 'query', 'atom', 'unify', 'Z9', 'a\t', ' a', 'a ', '٣', 'a٣', 'a\u0660']
+HEAD_FORMS = ["%s(a).", "%s.", "%s(X) :- q(X).\nq(1).", "p(b).\n%s(a, b).\nfile(c).\nf(d).", "%s :- true.", "q :- %s.", "q(%s).", "%s(%s)."]
 
 def gen(rng, tier):
-    n = 250 if tier == 'quick' else 4000
+    n = 230 if tier == 'quick' else 4000
     cases = []
     for i in range(n):
         o = progs.Opts(control=rng.random() < 0.6, cut=rng.random() < 0.5, opaque_cut=rng.random() < 0.2,
-                       builtins=rng.random() < 0.3, deep=rng.random() < 0.15)
+                       builtins=rng.random() < 0.3, deep=rng.random() < 0.15, exotic_atoms=rng.random() < 0.4)
         p = progs.gen_program(rng, o)
         cases.append({'kind': 'ast', 'clauses': p['clauses']})
-    # clause-head names of every lexical form: quoted names that are / are not identifiers, non-ASCII
-    # letters (including ones that Python's identifier normalisation (NFKC) would change), digits, spaces
-    pool = ['µs', 'ﬁle', 'ª', 'x²', 'Ⅸ', 'été', '中文', 'ｆｕｌｌ', 'K', 'ſ', 'a b', '1a', 'a-b', 'A', '_a', 'a_1', 'a1_', 'Ab_c', '', 'a.b', "it's", 'a\nb',
-            'def', 'None', 'True', 'x' * 300, 'é', 'e\u0301', 'ǆ', 'ﬀ', '\u00aa', 'ℌ', '𝐚', 'a\u200db', 'A\u0308']
-    pool = [x.encode().decode('unicode_escape') if '\\u' in x or '\\n' in x else x for x in pool]
-    for i in range(24 if tier == 'quick' else 400):
-        nm = rng.choice(pool)
-        if "\\" in nm:
-            continue
-        q = "'" + nm.replace("'", "\\'") + "'"
-        form = rng.choice(["%s(a).", "%s.", "%s(X) :- q(X).\nq(1).", "p(b).\n%s(a, b).\nfile(c).\nf(d).", "%s :- true."])
-        cases.append({'kind': 'text', 'source': form % q})
+    for i in range(40 if tier == 'quick' else 600):
+        nm = rng.choice(HEAD_NAMES)
+        q = E.quote_atom(nm)
+        form = rng.choice(HEAD_FORMS)
+        cases.append({'kind': 'text', 'source': form.replace('%s', q)})
+    for i in range(40 if tier == 'quick' else 600):
+        cases.append({'kind': 'text', 'source': E.gen_boundary(rng), 'boundary': True})
     return cases
 
 def builtin_corpus():
     L = []
-    def src(s): L.append({'kind': 'text', 'source': s})
+    def src(s, **kw): L.append(dict({'kind': 'text', 'source': s}, **kw))
     for s in ["p :- q, fail.\nq.", "p :- fail.", "foo(01).", "foo(007, 00, 0, 10).", "foo(True) :- bar(True).\nbar(1).", "p(None).",
               "p(ATOM_NIL, []).", "p(__debug__).", "p(Arg1, L1, X1, CutIf1, DoBreak, _x, _1).", "p(Query, Unify, Atom) :- Query = Unify, Atom = 1.",
               "p :- ( fail -> a ; fail ).", "p(X) :- q(X), fail.\nq(1).", "n(X) :- ( q(X) -> fail ; fail ).\nq(1).", "p :- \\+ fail.",
               "p :- !, true.", "p(X) :- ( X = 2 -> ! ).", "a.\nb.\na.", "p(X,X).", "p(X, f(X)).", "p(_, _).", "p([H|T], H, T).",
-              "if(a).\nwhile(b).\ndef(c).\nclass(d).", "x :- call(y).\ny.", "p :- X = 'it''s'.".replace("''", "\\'") if False else "p :- X = a.",
-              "once_1 :- true.\nt :- once_1.", "p :- ((a ; b), c ; d), e.\na. b. c. d. e."]:
+              "if(a).\nwhile(b).\ndef(c).\nclass(d).", "x :- call(y).\ny.", "p :- X = 'it\\'s'.", "p :- X = a.",
+              "once_1 :- true.\nt :- once_1.", "p :- ((a ; b), c ; d), e.\na. b. c. d. e.",
+              "", "% only a comment\n", ":- initialization(main).", "'hello world'(a).", "'a\nb'(a).", "true.", "p :- 1.", "p :- X.", "1(a).", "p(a/1).", "p :- q(a/1).",
+              "p('a\nb', 'it\\'s', '\"', '\\'\"', 'é\x00\x7f\u2028').", "p :- 'hello world'(x), 'A'.", "'A'(x).", "'_'.", "a_1.\na(x).\na_1(y).", "foo_1.\nfoo(a).",
+              "p(X1, x1, _) :- q(_, X1).", "p(_, _, X) :- q(_), r(_, X).", "p(V_X, V_) :- q(V_X).", "p(-1, + 2, - - a).", "p :- a = b, =(a, b), a \\== b.",
+              "a :- b.\n:- c(_).\nd(_).", "p :- ( a, ! ; b ).", "p :- ( a -> b ).", "p :- \\+ \\+ a.", "p :- \\+ ( a -> b ; c ).", "p :- ( ( a -> b ; c ) -> d ; e ).",
+              "p :- ( a ; b -> c ; d ), e."]:
         src(s)
-    for n in (1, 5, 10, 15, 17, 18, 19, 20, 21, 25, 40):
-        src("p :- " + ", ".join(["q"] * n) + ".\nq.")
-    for n in (1, 10, 50, 80, 95, 99, 100, 101, 120, 150):
-        src("p(" + "f(" * n + "a" + ")" * n + ").")
-    for n in (5, 10, 15, 19, 22):
-        src("p :- " + "( a -> " * n + "b" + " ; c )" * n + ".\na. b. c.")
+    for s in E.boundary_sources():
+        src(s, boundary=True)
     return L
 
 def _case_source(case):
@@ -67,41 +74,42 @@ def _case_source(case):
         return case['source']
     return ast_io.program_text(case['clauses'])
 
-MODEL_NEEDS_IMPL = True
+def model_expr(case):
+    # verdict + text, and the intermediate code of an accepted source (Comp/ShowIR.v)
+    return E.model_text_expr(_case_source(case)).replace('(run_compile_text ', '(run_compile_text_ir ', 1)
 
-def model_expr(case, io):
-    if case['kind'] != 'ast':
-        # text cases: the AST is the one the implementation's own front end built (the front end
-        # itself is compared with its model in C10/C16)
-        if not isinstance(io, dict) or 'front_ast' not in io or 'text' not in io:
-            return None
-        return '(run_compile %s)' % ast_io.g_program(io['front_ast'])
-    return '(run_compile %s)' % ast_io.g_program(progs.number_anons(case['clauses']))
+# ------------------------------------------------------------------ implementation
 
 def impl(case):
-    from yldprolog import compiler, engine
+    import inspect
+    from yldprolog import engine
     source = _case_source(case)
     out = {'source': source}
-    try:
-        text = compiler.compile_prolog_from_string(source, Ctx)
-    except RecursionError:
-        return {'source': source, 'rejected': 'RecursionError'}
-    except Exception as e:
-        return {'source': source, 'rejected': type(e).__name__, 'msg': str(e)[:200]}
+    v, text, cls = E.compile_verdict(source)
+    out['verdict'] = v
+    out['class'] = cls
+    if v == 'text':
+        from lib import py2ir
+        try:
+            out['ir'] = py2ir.text_to_ir(text)
+        except py2ir.NotInSublanguage as e:
+            out['ir_error'] = str(e)
+        except RecursionError:
+            out['ir_error'] = 'RecursionError while parsing'
+    if v != 'text':
+        out['msg'] = text
+        return out
     out['text'] = text
-    # front end AST (for the structural oracle)
+    # what the front end saw (head keys), through the implementation's own front end
     try:
         groups = ast_io.impl_parse(source)
         out['keys'] = [[g[0], g[1]] for g in groups]
-        out['nclauses'] = [len(g[2]) for g in groups]
-        out['front_ast'] = [c for g in groups for c in g[2]]
         if case['kind'] == 'ast':
-            flat = []
             want = progs.number_anons(case['clauses'])
             out['front_ast_ok'] = sorted(map(repr, [c for g in groups for c in g[2]])) == sorted(map(repr, want))
     except Exception as e:
         out['front_error'] = type(e).__name__
-    # oracle on the text
+        return out
     try:
         compile(text, '<emitted>', 'exec')
         out['compiles'] = True
@@ -110,12 +118,14 @@ def impl(case):
         out['compile_error'] = '%s: %s' % (type(e).__name__, e)
         return out
     mod = pyast.parse(text)
-    out['defs'] = [n.name for n in mod.body if isinstance(n, pyast.FunctionDef)]
-    out['only_defs'] = all(isinstance(n, pyast.FunctionDef) for n in mod.body)
-    out['arities'] = [len(n.args.args) for n in mod.body if isinstance(n, pyast.FunctionDef)]
-    out['generators'] = [any(isinstance(x, (pyast.Yield, pyast.YieldFrom)) for x in pyast.walk(n)) for n in mod.body if isinstance(n, pyast.FunctionDef)]
+    defs = [n for n in mod.body if isinstance(n, pyast.FunctionDef)]
+    out['only_defs'] = len(defs) == len(mod.body)
+    out['defs'] = [n.name for n in defs]
+    out['params'] = [[a.arg for a in n.args.args] for n in defs]
+    out['plain_params'] = all(not (n.args.vararg or n.args.kwarg or n.args.kwonlyargs or n.args.posonlyargs or n.args.defaults or n.decorator_list) for n in defs)
+    out['yields'] = [any(isinstance(x, (pyast.Yield, pyast.YieldFrom)) for x in pyast.walk(n)) for n in defs]
     yp = engine.YP()
-    before = set(yp.eval_context.keys())
+    before = dict(yp.eval_context)
     try:
         yp.load_script_from_string(text)
         out['loads'] = True
@@ -123,13 +133,14 @@ def impl(case):
         out['loads'] = False
         out['load_error'] = '%s: %s' % (type(e).__name__, e)
         return out
-    out['added'] = sorted(set(yp.eval_context.keys()) - before)
-    out['changed'] = sorted(k for k in before if k != '__builtins__' and yp.eval_context[k] is not None and k in out['defs'])
+    after = yp.eval_context
+    out['added'] = sorted(set(after) - set(before))
+    out['changed'] = sorted(k for k in before if after.get(k) is not before[k])
+    out['genfuncs'] = [inspect.isgeneratorfunction(after.get('%s_%d' % (k[0], k[1]))) for k in out['keys']]
     callable_ = []
-    for name, ar in out.get('keys', []):
+    for name, ar in out['keys']:
         vs = [yp.variable() for _ in range(ar)]
         try:
-            import itertools, sys
             q = yp.query(name, vs)
             n = 0
             for _ in q:
@@ -147,27 +158,27 @@ def impl(case):
     return out
 
 def compare(case, io, mo):
-    if 'rejected' in io:
-        return None          # the compiler reported it; C10/C11's "or the compiler itself reports" (size limits are not modelled exactly)
-    if mo[0] != 'text':
-        return 'model compiler got stuck'
-    if io['text'] != mo[1]:
-        a, b = io['text'].split('\n'), mo[1].split('\n')
-        for i, (x, y) in enumerate(zip(a, b)):
-            if x != y:
-                return 'emitted text differs from the model at line %d: impl %r, model %r' % (i + 1, x, y)
-        return 'emitted text differs from the model in length: %d vs %d lines' % (len(a), len(b))
+    r = E.compare_verdicts(io['source'], io['verdict'], io.get('text'), mo[0])
+    if r:
+        return r
+    if io['verdict'] == 'text':
+        # CPython's own parse of the emitted text, mapped back to intermediate code, must be the model's
+        # intermediate code (the object whose semantics Sem/IRSem.v states and the C01/C05/C06 theorems use)
+        if 'ir_error' in io:
+            return 'the emitted text is outside the sub-language of the emitter as CPython parses it: ' + io['ir_error']
+        if io.get('ir') != mo[1]:
+            return 'CPython reads the emitted text as different intermediate code than the model compiler produced'
     return None
 
 def oracle(case, io):
-    if 'rejected' in io:
-        if case['kind'] == 'ast' and io['rejected'] not in ('CompilerError', 'RecursionError'):
-            return 'a generated (valid) program was rejected with %s %s' % (io['rejected'], io.get('msg'))
+    if io['verdict'] != 'text':
+        if case['kind'] == 'ast' and io['verdict'] not in ('too-large', 'resource'):
+            return 'a generated (valid) program was rejected with %s %s' % (io['class'], io.get('msg'))
         return None
-    if not io['compiles']:
-        return 'accepted, but the output is not loadable Python: ' + io.get('compile_error', '')
     if 'front_error' in io:
         return 'compiler accepted but the front end raised ' + io['front_error']
+    if not io['compiles']:
+        return 'accepted, but the output is not loadable Python: ' + io.get('compile_error', '')
     if io.get('front_ast_ok') is False:
         return 'front end AST differs from the AST the text was printed from'
     want = ['%s_%d' % (k[0], k[1]) for k in io['keys']]
@@ -175,27 +186,38 @@ def oracle(case, io):
         return 'the module contains statements other than function definitions'
     if io['defs'] != want:
         return 'defined functions %r, head keys %r' % (io['defs'], want)
-    if io['arities'] != [k[1] for k in io['keys']]:
-        return 'function arities differ from the head arities'
-    if not all(io['generators']):
-        return 'a defined function is not a generator function'
+    if len(set(want)) != len(want):
+        return 'two head keys share one function name: %r' % (want,)
+    if io['params'] != [['arg%d' % (i + 1) for i in range(k[1])] for k in io['keys']] or not io['plain_params']:
+        return 'function parameters are not arg1..argN of the head arity'
+    if not all(io['yields']):
+        return 'a defined function contains no yield'
     if not io['loads']:
         return 'accepted, but loading raised: ' + io.get('load_error', '')
-    if io['added'] != sorted(set(want) - set(io['changed'])) and sorted(io['added']) != sorted(want):
-        return 'loading added keys %r, expected %r' % (io['added'], sorted(want))
+    if not all(io['genfuncs']):
+        return 'a head key is not bound to a generator function after loading'
+    before_keys = set(io['changed'])                     # keys that existed and were rebound
+    if set(io['added']) | before_keys != set(want) or not before_keys <= set(want):
+        return 'loading added keys %r and rebound %r, head keys %r' % (io['added'], io['changed'], sorted(want))
     for k, c in zip(io['keys'], io['callable']):
         if c is not True:
             return 'predicate %s/%d is not callable after loading: %s' % (k[0], k[1], c)
     return None
 
 def nontrivial(case, io):
-    return 'text' in io and len(io.get('keys', [])) >= 2 and 'for l1 in query' in io['text']
+    if io.get('verdict') in ('too-large', 'reject-numeral'):
+        return True
+    return io.get('verdict') == 'text' and len(io.get('keys', [])) >= 2 and 'for l1 in query' in io['text']
 
 def describe(case):
     return {'source': _case_source(case)}
 
 def shrink(case):
     if case['kind'] != 'ast':
+        lines = case['source'].split('\n')
+        if len(lines) > 1:
+            for i in range(len(lines)):
+                yield {'kind': 'text', 'source': '\n'.join(lines[:i] + lines[i + 1:])}
         return
     cl = case['clauses']
     for i in range(len(cl)):
@@ -210,13 +232,18 @@ def shrink(case):
             yield {'kind': 'ast', 'clauses': cl[:i] + [[name, args, ['true']]] + cl[i + 1:]}
 
 def distribution(cases, obs):
-    d = {'accepted': 0, 'rejected': {}, 'kinds': {}, 'constructs': {}, 'nkeys': {}}
+    d = {'verdicts': {}, 'classes': {}, 'kinds': {}, 'constructs': {}, 'nkeys': {}, 'boundary': {}}
     for c, o in zip(cases, obs):
         d['kinds'][c['kind']] = d['kinds'].get(c['kind'], 0) + 1
-        if isinstance(o, dict) and 'rejected' in o:
-            d['rejected'][o['rejected']] = d['rejected'].get(o['rejected'], 0) + 1
-        elif isinstance(o, dict):
-            d['accepted'] += 1
+        if not isinstance(o, dict):
+            continue
+        v = o.get('verdict')
+        d['verdicts'][v] = d['verdicts'].get(v, 0) + 1
+        if c.get('boundary'):
+            d['boundary'][v] = d['boundary'].get(v, 0) + 1
+        if o.get('class'):
+            d['classes'][o['class']] = d['classes'].get(o['class'], 0) + 1
+        if v == 'text':
             k = str(len(o.get('keys', [])))
             d['nkeys'][k] = d['nkeys'].get(k, 0) + 1
         if c['kind'] == 'ast':
